@@ -12,6 +12,7 @@ function makeAdapter (table, opts) {
 
     rewrite (code, file) {
       const job = { cfg: this.config === undefined ? null : this.config, prng_seed: this.prngSeed, file, code }
+      if (opts.logLevel) job.log_level = opts.logLevel
       if (opts.fsFor) { const f = opts.fsFor(file, code); if (f) job.fs = f }
       const r = table.get(job)
       if (opts.onCall) opts.onCall(job, r)
